@@ -56,7 +56,8 @@ MANIFEST = dict(
          'input (the model starts where IRGenerator starts; what the parser drops is caught by the reference-image '
          'comparison, C11 / C03 are about the parser), harness/specgen.py (model -> text renderer), harness/apisig.py, '
          'harness/expected.py (the reference reading). The compile model leaves out, and its theorems say nothing about: '
-         'docs and doc references, annotations applied to members (annotation definitions only occupy their names), '
+         'docs and doc references, the effect of applied annotations on the image (deprecated / preview / omitted / '
+         'redactor flags and the injected doc texts; their legality IS modelled, see C01), '
          'examples (also those a patch adds), route attributes and the '
          'stone_cfg namespace (dropped from both dumps), the value of a default (C10), `Api.normalize` (covered by the '
          'ordering theorems). Type references with mixed literal / type positional arguments or a type passed by keyword '
